@@ -7,7 +7,7 @@ use crate::engines::sni::*;
 pub fn run(ctx: &Ctx) -> i32 {
     let started = Instant::now();
     if let Some(path) = &ctx.replay {
-        return match read_replay(path).and_then(|rf| if rf.engine == "tlsstack" { crate::props::stack::replay(ctx, "C20", &rf) } else { replay_one(ctx, &SniEngine, &rf) }) {
+        return match read_replay(path).and_then(|rf| if rf.engine == "tlsstack" { crate::props::stack::replay(ctx, "C20", &rf) } else if rf.engine == "snilazy" { replay_one(ctx, &crate::engines::snilazy::LazySniEngine, &rf) } else { replay_one(ctx, &SniEngine, &rf) }) {
             Ok(c) => c,
             Err(e) => {
                 eprintln!("replay failed: {e}");
@@ -17,6 +17,8 @@ pub fn run(ctx: &Ctx) -> i32 {
     }
     let mut total = Outcome::default();
     total.merge(run_generated(ctx, &SniEngine, "grammar", strategy, ctx.cases(400_000, 12_000_000), 500));
+    // low-level layers on a connection whose handshake is still in flight: early requests abandoned or kept
+    total.merge(run_generated(ctx, &crate::engines::snilazy::LazySniEngine, "requests-before-the-handshake", crate::engines::snilazy::strategy, ctx.cases(10_000, 300_000), 100));
     // integration: real TLS server with connection info + ValidateSNI, real TLS client
     total.merge(crate::props::stack::leg(ctx, "C20"));
     finish(
